@@ -881,6 +881,9 @@ def judge_site(U: Uni, it, f, site: str, r: dict, c: dict) -> typing.Tuple[typin
     return None, ""
 
 
+_SAMPLED: typing.Set[tuple] = set()
+
+
 def judge_assign(ctx: core.Ctx, U: Uni, op: dict, res: dict) -> typing.List[typing.Tuple[str, str]]:
     it, fields = U.fields(op["tk"])
     f = fields[op["fi"]]
@@ -922,9 +925,13 @@ def judge_assign(ctx: core.Ctx, U: Uni, op: dict, res: dict) -> typing.List[typi
         classes.append("field.reserved_word")
     if isinstance(it, pydsdl.UnionType):
         classes.append("assign.union_option")
-    ctx.case(["assign", str(T), isinstance(it, pydsdl.UnionType), cand], nontrivial,
-             sample={"type": tkey(it), "field": str(f), "candidate": cand_py(cand), "class": cls, "setter": res["setter"].get("exc") or "accepted", "ctor": res["ctor"].get("exc") or "accepted"},
-             classes=classes)
+    skey = (kind, cls, cset.get("cont"))
+    sample = None
+    if skey not in _SAMPLED and len(_SAMPLED) % 5 == 0 or (skey not in _SAMPLED and cls == "badlen"):
+        sample = {"type": tkey(it), "field": str(f), "candidate": cand_py(cand), "class": cls, "setter": res["setter"].get("exc") or "accepted", "ctor": res["ctor"].get("exc") or "accepted"}
+    if nontrivial:
+        _SAMPLED.add(skey)
+    ctx.case(["assign", str(T), isinstance(it, pydsdl.UnionType), cand], nontrivial, sample=sample, classes=classes)
     if not per_site:
         return out
     groups: typing.Dict[str, list] = collections.OrderedDict()
@@ -936,6 +943,8 @@ def judge_assign(ctx: core.Ctx, U: Uni, op: dict, res: dict) -> typing.List[typi
         klabel = "float" if kind.startswith("float") and "-raises-" in sym else kind
         if sym == "stored-value-out-of-range":
             sig = f"other-type|stored-value-out-of-range|{klabel}"
+        elif sym == "union-options-after-assignment":
+            sig = f"{sites}|union|options-not-exclusive-after-assignment"
         else:
             sig = f"{sites}|{klabel}|{sym}" + (f"|cand={c.get('cont')}" if kind == "array" and c.get("cont") else "")
         what = (f"{U.dsdl_text(op['tk'])}\nfield `{f}` (python attribute {py_attr(f.name)}), candidate {cand_py(cand)} "
@@ -1456,7 +1465,7 @@ def useq_cand(draw, U: Uni, t, ctor_site: bool):
 @st.composite
 def useq_op(draw, U: Uni, key: str):
     it, fields = U.fields(key)
-    nk = draw(st.sampled_from([0, 1, 1, 2, 2]))
+    nk = draw(st.sampled_from([0, 1, 1, 1, 1, 2]))
     chosen = draw(st.lists(st.integers(0, len(fields) - 1), min_size=nk, max_size=nk, unique=True))
     ctor = [[fi, draw(useq_cand(U, fields[fi].data_type, True))] for fi in chosen]
     steps = []
@@ -1588,10 +1597,11 @@ def run(ctx: core.Ctx):
             raise core.HarnessError(f"{len(gen_errors)}/{len(universes)} universes failed to generate: {gen_errors[0][:1500]}")
     ctx.extra["excluded_numpy2_incompatibilities"] = ctx.hist.get("numpy2.excluded", 0)
     k = 1 if q else 8
-    for cls, m in (("oor.uint", 60), ("oor.int", 30), ("oor.float", 60), ("oor.bool", 15), ("overcap", 80), ("wronglen", 40), ("doc.accepted", 800), ("other.type", 300),
-                   ("other.coerced", 60), ("other.refused", 100), ("useq", 15), ("useq.step.oor", 5), ("useq.step.valid", 20), ("model.struct", 25), ("model.union", 8),
-                   ("model.service", 2), ("model.delimited", 10), ("builtin.union", 15), ("builtin.nested_array", 10), ("builtin.utf8", 15), ("field.reserved_word", 100),
-                   ("cand.bytes/str", 60), ("cand.ndarray", 60)):
+    for cls, m in (("oor.uint", 100), ("oor.int", 40), ("oor.float", 25), ("oor.bool", 25), ("overcap", 200), ("wronglen", 150), ("doc.accepted", 700),
+                   ("other.type", 400), ("other.coerced", 150), ("other.refused", 200), ("useq", 50), ("useq.step.oor", 8), ("useq.step.valid", 50),
+                   ("model.struct", 30), ("model.union", 10), ("model.service", 3), ("model.delimited", 20), ("builtin.union", 70),
+                   ("builtin.union.non_first_option", 30), ("builtin.nested_array.nonempty", 25), ("builtin.utf8.printable_nonempty", 15),
+                   ("field.reserved_word", 250), ("cand.bytes/str", 200), ("cand.ndarray", 150), ("cand.memoryview", 40), ("ctor.none_is_default", 80)):
         ctx.require(cls, m * k)
 
 
